@@ -54,6 +54,9 @@ isal_self_tests(void)
 
         ret |= _sha_self_tests();
 
+        /* The status word only has two final states: 0 (passed) and 1 (failed) */
+        ret = (ret != 0);
+
         asm_set_self_tests_status(ret);
 
         if (ret == 0)
